@@ -80,6 +80,20 @@ def step (s : St) (line : String) : St × String :=
       | .exitTCP => (s, "none")
       | .relay => (s, "none")
     | _, _, _ => (s, "bad-op")
+  | ["ingress", k, _w] =>
+    match bytesOfHex k with
+    | none => (s, "bad-op")
+    | some key =>
+      if key.isEmpty then (s, "noroute")      -- the forward table refuses an empty key
+      else if forwardPrefix.length + key.length ≥ 256 then
+        -- the address is truncated on the wire; whether the rest still parses depends on the key bytes
+        (s, "anyof undecodable | none")
+      else
+        match dispatch selfId Gen.C20.addrTypeDomain (wireAddr (ingressAddr key)) [] with
+        | .forward key' =>
+          let (s', out) := doOpen s key'
+          (s', if out == "notrunning" then "none" else if out.startsWith "dialerr " then "err " ++ (out.drop 8).toString else out)
+        | _ => (s, "none")
   | ["close", i] =>
     match i.toNat? with
     | some i => ({ s with active := setFalse s.active i }, "ok")
@@ -129,6 +143,14 @@ def specStep (s : St) (line : String) : St × String :=
     | ["open", k] =>
       match bytesOfHex k with
       | some key => (advance s, judge s (some key) o)
+      | none => (s, "bad-op")
+    | ["ingress", k, _w] =>
+      match bytesOfHex k with
+      | some key =>
+        if key.isEmpty || forwardPrefix.length + key.length ≥ 256 then
+          -- nothing may be dialled for a key that cannot be expressed on the wire
+          (advance s, if o.head? == some "dial" || o.any (·.startsWith "stray=") then "fail dialed-unknown-key" else "ok")
+        else (advance s, judge s (some key) o)
       | none => (s, "bad-op")
     | ["agent", aty, addr, path, _w] =>
       match aty.toNat?, bytesOfHex addr, parsePath path with
